@@ -193,8 +193,8 @@ def run(ctx: Ctx) -> None:
               gen_bp.guillotine_shaped(max_bins=ctx.pick(5, 7),
                                        max_dim=ctx.pick(40, 60),
                                        big_dim=ctx.pick(100, 160)),
-              check_guillotine, quick=2200, thorough=16 * 9000)
+              check_guillotine, quick=2200, thorough=16 * 7000)
     ctx.given("decoded",
               decoded_cases(max_items=ctx.pick(14, 30),
                             max_types=ctx.pick(6, 8)),
-              check_decoded, quick=800, thorough=16 * 3500)
+              check_decoded, quick=800, thorough=16 * 2500)
